@@ -202,9 +202,33 @@ def run(m: Model, r: Report, tier: str) -> None:
             "an option can leave the registration block without having been stored in the registry (the template then does not list a key the file lookup reads): "
             + " -> ".join(repr(gi.nodes[p_]) for p_ in preg[-4:]), loc=isc.loc)
     tp = m.require_function(f"{CLI}.template")
-    ts = ast.unparse(tp.node)
-    r.check("GalliaBaseModel.registry().items()" in ts and "'.'.join(tmp[:-1])" in ts and "tmp[-1]" in ts and "f'[{group}]\\n'" in ts, "R4", f"{tp.qualname}#groups",
-            "the template must print every registry key as [section] / attribute", loc=tp.loc)
+    # the grouping loop of template(), evaluated per registry key: [section] is everything before the last dot, the attribute the rest
+    from sa import miniterp as _mtt
+    tloops = [n for n in tp.node.body if isinstance(n, ast.For) and "registry()" in ast.unparse(n.iter) and isinstance(n.target, ast.Tuple) and len(n.target.elts) == 2]
+    gvars = [n.targets[0].id if isinstance(n, ast.Assign) else n.target.id for n in tp.node.body
+             if isinstance(n, (ast.Assign, ast.AnnAssign)) and isinstance(n.value, ast.Dict) and not n.value.keys and isinstance(n.targets[0] if isinstance(n, ast.Assign) else n.target, ast.Name)]
+    if len(tloops) != 1 or len(gvars) != 1:
+        r.unrecognised("R4", f"{tp.qualname}#groups", "the loop over GalliaBaseModel.registry().items() / the group map was not found", tp.loc)
+    else:
+        kv_, vv_ = (e_.id for e_ in tloops[0].target.elts)
+        badg, unkg = [], None
+        try:
+            for key_, want_ in (("uds.ecu_reset", {"uds": {"ecu_reset": "V"}}), ("gallia.scanner.x", {"gallia.scanner": {"x": "V"}}), ("plain", {"": {"plain": "V"}})):
+                env_ = {gvars[0]: {}, kv_: key_, vv_: "V"}
+                _mtt.exec_body(tloops[0].body, env_)
+                if env_[gvars[0]] != want_:
+                    badg.append(f"{key_!r} -> {env_[gvars[0]]!r}")
+            # two keys of one section end up in the same table
+            env_ = {gvars[0]: {}, vv_: "V"}
+            for key_ in ("uds.a", "uds.b"):
+                env_[kv_] = key_
+                _mtt.exec_body(tloops[0].body, env_)
+            if env_[gvars[0]] != {"uds": {"a": "V", "b": "V"}}:
+                badg.append(f"'uds.a', 'uds.b' -> {env_[gvars[0]]!r}")
+        except (AnalysisError, _mtt.Raised) as ex_:
+            unkg = str(ex_)
+        r.check3(None if unkg else not badg, "R4", f"{tp.qualname}#groups", f"{badg[:3]}: the template must print every registry key as [section] / attribute", loc=tp.loc,
+                 unknown_msg=f"grouping loop outside the evaluated language: {unkg}")
     gv = m.require_function(f"{CONF}.Config.get_value")
     # the final answer, decided over the looked-up value in {None, False, 0, '', 'x'}: the default exactly for None
     from sa.util import path_condition as _pcg, truth_table as _ttg
